@@ -110,14 +110,39 @@ pub fn run(ctx: &Ctx) -> i32 {
     let bases: Vec<M> = families::plain(if th { 4 } else { 3 });
     let key = bind::key0();
     let mut acc = Acc::new();
+    // scheme-level self-check: a signature made with a private key verifies under the matching public key, over 1500 fixed digests per scheme
+    let mut all_schemes: Vec<&'static str> = assignments.iter().flat_map(|a| a.iter().cloned()).collect(); all_schemes.sort(); all_schemes.dedup();
+    if th { for s in ["ssh-ecdsa-p256", "ssh-dsa", "mldsa65"] { if !all_schemes.contains(&s) { all_schemes.push(s) } } }
+    let sc: Vec<Acc> = all_schemes.par_iter().map(|scheme| {
+        let mut acc = Acc::new();
+        let id = identity("Z", scheme);
+        let n = if scheme.starts_with("mldsa") || *scheme == "ssh-dsa" { 200 } else { 1500 };
+        for i in 0..n {
+            acc.inc("scheme_selfcheck_signatures");
+            let msg = crate::refmodel::sha256::sha256(format!("selfcheck-{i}").as_bytes());
+            match catch(|| id.sk.sign_with_options(&msg, id.opts.clone()).map(|s| id.pk.verify(&s, &msg))) {
+                Ok(Ok(true)) => {}
+                Ok(Ok(false)) => acc.viol(format!("C09|scheme-selfcheck|{scheme}|own-signature-does-not-verify"), format!("a fresh {scheme} signature does not verify under the matching public key"), format!("selfcheck/{scheme}/digest{i}"), json!({"scheme": scheme, "message_digest": hex::encode(msg)})),
+                Ok(Err(e)) => acc.viol(format!("C09|scheme-selfcheck|{scheme}|sign-error"), format!("{e}"), format!("selfcheck/{scheme}/digest{i}"), json!({})),
+                Err(p) => acc.viol(format!("C09|scheme-selfcheck|{scheme}|panic|{}", p.site), p.msg.clone(), format!("selfcheck/{scheme}/digest{i}"), json!({})),
+            }
+        }
+        acc
+    }).collect();
+    for a in sc { acc = acc.merge(a) }
     for (ai, asg) in assignments.iter().enumerate() {
         let ids: Vec<Id> = ["A", "B", "C", "D"].iter().zip(asg.iter()).map(|(n, s)| identity(n, s)).collect();
         let nb = if ai == 0 { bases.len() } else { bases.len().min(if th { 18 } else { 6 }) };
-        let a = (0..nb).into_par_iter().map(|bi| {
+        let a = (0..nb).into_par_iter().with_max_len(1).map(|bi| {
             let mut acc = Acc::new();
             let m = &bases[bi];
             let base = bind::build(m, 0);
+            // signing is deterministic for every seeded scheme: a signer whose own signature over THIS subject digest does not verify
+            // is a scheme-level failure (reported once by the self-check above), not an envelope-level one
+            let sd = bind::dg(&base.subject());
+            let own_ok: Vec<bool> = ids.iter().map(|id| id.scheme.starts_with("mldsa") || matches!(catch(|| id.sk.sign_with_options(&sd, id.opts.clone()).map(|s| id.pk.verify(&s, &sd))), Ok(Ok(true)))).collect();
             for signers in 0u32..8 {
+                if (0..3).any(|i| signers >> i & 1 == 1 && !own_ok[i]) { acc.inc("combinations_skipped_signer_fails_scheme_selfcheck"); continue }
                 for meta in [false, true] {
                     if meta && signers == 0 { continue }
                     let mut e = base.clone();
@@ -148,6 +173,8 @@ pub fn run(ctx: &Ctx) -> i32 {
                     // sign()/verify() = wrap + sign
                     if signers.count_ones() == 1 && !meta {
                         let i = signers.trailing_zeros() as usize;
+                        let wd = bind::dg(&base.wrap_envelope());
+                        if !(ids[i].scheme.starts_with("mldsa") || matches!(catch(|| ids[i].sk.sign_with_options(&wd, ids[i].opts.clone()).map(|s| ids[i].pk.verify(&s, &wd))), Ok(Ok(true)))) { acc.inc("combinations_skipped_signer_fails_scheme_selfcheck"); continue }
                         let s = base.sign_opt(&ids[i].sk, ids[i].opts.clone());
                         for (k, id) in ids.iter().enumerate() {
                             acc.inc("verification_checks");
